@@ -312,3 +312,15 @@ class Struct:
 
     def __repr__(self):
         return '%s%r' % (self.tag, self.fields)
+
+
+class Segment:
+    """A run of `n` consecutive elements (n symbolic, >= 0) inside a PyList whose individual elements are not
+    enumerated: elements off .. off+n-1 of the abstract sequence `base`.  Immutable: list operations replace it.
+    `elem(interp, base, index_term)` yields the (canonical) element value, or is None when elements are opaque."""
+
+    def __init__(self, base, off, n, elem=None, tag=''):
+        self.base, self.off, self.n, self.elem, self.tag = base, off, n, elem, tag
+
+    def __repr__(self):
+        return 'Segment<%s[%s:+%s]>' % (self.base, self.off, self.n)
